@@ -7,7 +7,9 @@
    parser model's diagnostics.  The answers (definition / completion / hierarchy) are echoed: the models of those
    services are tied to the code by C10 / C11 / C13; C17 compares them between W and W'.
    Besides, the model checks its own theorem on the pair: the two token lists must satisfy forall2b tok_simb and the
-   two roots node_simb (Proofs/RecaseTop.v parse_gold_sim); a failure is printed as MODEL-NOT-SIM in W's file part. *)
+   two roots node_simb (Proofs/RecaseTop.v parse_gold_sim), the roots decl_exactb ("declarations left as written", the
+   hypothesis of the consumer theorems) and every tree dot_ok (the guard of the unused-variable theorem); a failure is
+   printed as MODEL-NOT-SIM / MODEL-DECL-NOT-EXACT / MODEL-DOT-NOT-OK in front of W's file part. *)
 open Driver_common
 open Lexer
 
@@ -86,15 +88,27 @@ let run_case (line : string) : string =
     let (aa, ab) = split_at "@P@" answers in
     let pa = Stdlib.List.map (fun (s, t) -> analyse s t) (files_of fa) in
     let pb = Stdlib.List.map (fun (s, t) -> analyse s t) (files_of fb) in
-    (* the model's own theorem on this pair (only meaningful when W' is a re-casing of W: same number of files) *)
+    (* the model's own theorems on this pair (only meaningful when W' is a re-casing of W: same number of files):
+       similar token lists give similar roots (parse_gold_sim); the hypotheses of the consumer theorems hold of what
+       the generator calls "declarations left as written" (decl_exactb) and of every parsed tree (dot_ok) *)
+    let same_n = Stdlib.List.length pa = Stdlib.List.length pb in
     let sim_ok =
-      Stdlib.List.length pa <> Stdlib.List.length pb ||
+      (not same_n) ||
       Stdlib.List.for_all2 (fun a b ->
           (not (Recase.forall2b Recase.tok_simb a.toks b.toks)) ||
           (match a.root, b.root with
            | Some r, Some r' -> Recase.node_simb r r'
            | None, None -> true
            | _ -> false)) pa pb in
+    let decl_ok =
+      (not same_n) ||
+      Stdlib.List.for_all2 (fun a b ->
+          match a.root, b.root with
+          | Some r, Some r' -> (not (Recase.node_simb r r')) || Recase.decl_exactb r r'
+          | _ -> true) pa pb in
+    let dot_ok =
+      Stdlib.List.for_all (fun a -> match a.root with Some r -> Recase.dot_ok r | None -> true) (pa @ pb) in
     let part l = Stdlib.String.concat "%" (Stdlib.List.map (fun p -> p.part) l) in
-    (if sim_ok then "" else "MODEL-NOT-SIM ") ^ part pa ^ "@Q@" ^ aa ^ "@P@" ^ part pb ^ "@Q@" ^ ab
+    (if sim_ok then "" else "MODEL-NOT-SIM ") ^ (if decl_ok then "" else "MODEL-DECL-NOT-EXACT ") ^
+    (if dot_ok then "" else "MODEL-DOT-NOT-OK ") ^ part pa ^ "@Q@" ^ aa ^ "@P@" ^ part pb ^ "@Q@" ^ ab
   | _ -> "BADCASE"
